@@ -1168,11 +1168,13 @@ fn main() {
         },
     );
 
-    // ---------------------------------------------------------------- pairs and nest3 (thorough)
-    let q_sigs = comp::signatures(&Ty::QUICK);
+    // ---------------------------------------------------------------- pairs and nest3
+    // quick: the p-only signatures (two calls of one component in one template, three nested through
+    // bodies: state that survives from one invocation to the next shows only here)
+    let q_sigs = if thorough { comp::signatures(&Ty::QUICK) } else { comp::signatures_p_only(&Ty::QUICK) };
     let q_args: Vec<Call> = comp::calls(&Form::QUICK, &[BodyKind::SelfClosing]);
     let nq = Form::QUICK.len() as u64;
-    if thorough {
+    {
         let nqs = q_sigs.len() as u64;
         run.family(
             Family::new(
